@@ -69,6 +69,10 @@ def _raise_observe_timeout(sig, frm):
     raise ObserveTimeout()
 
 
+class UnknownTerminal(Exception):
+    pass
+
+
 class MachineryError(RuntimeError):
     """TLC crashed / output unparsable / record counts do not add up: never a verdict on the code."""
 
@@ -840,6 +844,8 @@ class SentenceGen:
 
     def expand(self, sym, depth, out):
         if sym not in self.by_lhs:
+            if sym not in TERMINAL_POOL:
+                raise UnknownTerminal(sym)      # the tree under test declares a terminal the specification does not know
             out.append(self.rng.choice(TERMINAL_POOL[sym]))
             return
         alts = self.by_lhs[sym]
@@ -851,9 +857,15 @@ class SentenceGen:
             self.expand(s, depth - 1, out)
 
     def sentence(self, depth):
-        out = []
-        self.expand('code', depth, out)
-        return out
+        # (sentences through a terminal unknown to the specification are not generated: 50 attempts, then the empty program)
+        for _ in range(50):
+            out = []
+            try:
+                self.expand('code', depth, out)
+                return out
+            except UnknownTerminal:
+                continue
+        return []
 
 
 def _wordy(lexeme):
